@@ -220,7 +220,8 @@ class Node:
 
         if typ in scalar_type_to_tag:
             tag = scalar_type_to_tag[typ]
-            return cast(str, attr_node.tag) == tag
+            return (isinstance(attr_node, yaml.ScalarNode)
+                    and cast(str, attr_node.tag) == tag)
         elif typ == list:
             return isinstance(attr_node, yaml.SequenceNode)
         elif typ == dict:
